@@ -6,7 +6,7 @@
     [needs_escaping_at] (regenerated flag [C13EscapeTables.positional_escaping]; absent in the
     unchanged tree).  [read_word p w] is the reader specification of Quote/Reader.v: the bash
     quoting rules for one word in argument / assignment position. *)
-From BV Require Import Base.Prelude gen.C13EscapeTables Quote.Quote Quote.Reader Quote.Proofs.
+From BV Require Import Base.Prelude gen.C13EscapeTables Quote.Quote Quote.Reader Quote.Proofs Quote.AnsiC.
 
 Theorem c13_read_single : forall p s, read_word p (single_quote s) = Some s.
 Proof. exact read_single. Qed.
@@ -68,6 +68,18 @@ Theorem c13_avoid_nl_refuted :
   exists o s, avoid_nl o = true /\ no_nul s /\ read_word Assign (quote true o s) <> Some s.
 Proof. exact avoid_nl_refuted. Qed.
 Print Assumptions c13_avoid_nl_refuted.
+
+(** brush's own ANSI-C decoder (escape.rs expand_backslash_escapes, model Quote/AnsiC.v) inverts
+    ansi_c_quote when a backslash-0 escape takes at most two further octal digits (repaired code) *)
+Theorem c13_decode_ansi_body : forall s, Forall (fun c => c <> 0%N) s -> decode 2 (ansi_body s) = DOk (utf8s s).
+Proof. exact decode_ansi_body. Qed.
+Print Assumptions c13_decode_ansi_body.
+
+(** ... and does not with three (unchanged code): a control character followed by an octal digit *)
+Theorem c13_decode_ansi_body_refuted :
+  exists s, Forall (fun c => c <> 0%N) s /\ decode 3 (ansi_body s) <> DOk (utf8s s).
+Proof. exact decode_ansi_body_refuted. Qed.
+Print Assumptions c13_decode_ansi_body_refuted.
 
 Theorem c13_nonvacuous :
   read_word Arg (quote_if_needed true QBackslash [TILDE; 97; 32; 39; 36]%N) = Some [TILDE; 97; 32; 39; 36]%N
